@@ -1,10 +1,11 @@
 #!/bin/bash
 # (Re)creates the scratch setup used by tools/try_mutant_scratch.sh:
-#   /tmp/mt  = detached worktree of /repo HEAD, /tmp/vh = copy of committed /verif whose simulator builds against /tmp/mt.
+#   /tmp/mt$S  = detached worktree of /repo HEAD, /tmp/vh$S = copy of committed /verif whose simulator builds against /tmp/mt$S.
 set -e
-if [ ! -d /tmp/mt ]; then git -C /repo worktree add --detach /tmp/mt HEAD >/dev/null; cp /repo/Cargo.lock /tmp/mt/; fi
-git -C /tmp/mt reset -q --hard HEAD; git -C /tmp/mt checkout -q --detach "$(git -C /repo rev-parse HEAD)"
-mkdir -p /tmp/vh
-(cd /verif && git archive HEAD | tar -x -C /tmp/vh --exclude=evidence)
-sed -i 's#path = "/repo/#path = "/tmp/mt/#' /tmp/vh/sim/Cargo.toml
-echo "scratch ready: /tmp/mt @ $(git -C /tmp/mt log --oneline -1)"
+S="${SCR:-}"   # optional suffix: a second, independent scratch pair (SCR=2 -> /tmp/mt$S2, /tmp/vh$S2)
+if [ ! -d /tmp/mt$S ]; then git -C /repo worktree add --detach /tmp/mt$S HEAD >/dev/null; cp /repo/Cargo.lock /tmp/mt$S/; fi
+git -C /tmp/mt$S reset -q --hard HEAD; git -C /tmp/mt$S checkout -q --detach "$(git -C /repo rev-parse HEAD)"
+mkdir -p /tmp/vh$S
+(cd /verif && git archive HEAD | tar -x -C /tmp/vh$S --exclude=evidence)
+sed -i "s#path = \"/repo/#path = \"/tmp/mt$S/#" /tmp/vh$S/sim/Cargo.toml
+echo "scratch ready: /tmp/mt$S @ $(git -C /tmp/mt$S log --oneline -1)"
